@@ -214,3 +214,29 @@ void use_tagger(OVM::TopologyKernel &m) {
 }
 
 }  // namespace verif_inst
+
+// the entity-named convenience wrappers of ResourceManager (rule C14.tag)
+#define OVM_VERIF_NAMED(K)                                                         \
+  (void)m.template request_##K##_property<T>("n", T());                            \
+  (void)m.template create_shared_##K##_property<T>("n", T());                      \
+  (void)m.template create_persistent_##K##_property<T>("n", T());                  \
+  (void)cm.template create_private_##K##_property<T>("n", T());                    \
+  (void)m.template get_##K##_property<T>("n");                                     \
+  (void)cm.template get_##K##_property<T>("n");                                    \
+  (void)cm.template K##_property_exists<T>("n");                                   \
+  (void)cm.n_##K##_props();                                                        \
+  (void)cm.K##_props_begin();                                                      \
+  (void)cm.K##_props_end();                                                        \
+  m.clear_##K##_props();
+template <class T>
+void use_named_props(OVM::TopologyKernel &m, const OVM::TopologyKernel &cm) {
+  OVM_VERIF_NAMED(vertex)
+  OVM_VERIF_NAMED(edge)
+  OVM_VERIF_NAMED(halfedge)
+  OVM_VERIF_NAMED(face)
+  OVM_VERIF_NAMED(halfface)
+  OVM_VERIF_NAMED(cell)
+  (void)m.template request_mesh_property<T>("n", T());
+  m.clear_mesh_props();
+}
+template void use_named_props<int>(OVM::TopologyKernel &, const OVM::TopologyKernel &);
